@@ -1,6 +1,7 @@
 import S3V.Props.C12
 /-!
-# C12 — kernel-checked counterexamples to the full statements (outside the pass/fail gate)
+# C12 — kernel-checked counterexamples to the full statements (outside the pass/fail gate), and
+regression examples for repaired findings
 
 Each witness is also a line of `corpus/path.txt` and is replayed on the real code by every run
 (`known_findings.d/path.json`).
@@ -8,21 +9,39 @@ Each witness is also a line of `corpus/path.txt` and is replayed on the real cod
 namespace S3V.C12
 open S3V S3V.Net S3V.Host S3V.Path S3V.PathSpec
 
-/-- `192.168.5.04` -/
-def wIpv4Like : Bytes := [49, 57, 50, 46, 49, 54, 56, 46, 53, 46, 48, 52]
+/-! ## open: F-path-4 — overlap is tested case-sensitively, hosts are matched case-insensitively -/
 
-/-- F-path-1: `check_bucket_name` accepts `192.168.5.04`, which is formatted as an IP address -/
-theorem C12_counterexample_ipv4_like : ¬ C12_accept_implies_core_full := by
+/-- `x.COM` -/
+def wUpper : Bytes := [120, 46, 67, 79, 77]
+/-- `com` -/
+def wCom : Bytes := [99, 111, 109]
+/-- `b.x.com` -/
+def wHostBX : Bytes := [98, 46, 120, 46, 99, 111, 109]
+
+/-- `MultiDomain::new(["x.COM", "com"])` succeeds although `x.com` is a sub-domain of `com` -/
+theorem C12_counterexample_case_overlap_accepted : multiNew [wUpper, wCom] = .ok [wUpper, wCom] := rfl
+
+/-- … and the host `b.x.com` then belongs to both base domains -/
+theorem C12_counterexample_unique_match : ¬ C12_multidomain_unique_match_full := by
   intro h
-  have hc := h wIpv4Like (by decide)
-  exact hc.notIp ((ipv4FormattedB_iff _).mp (by decide))
+  have := h [wUpper, wCom] [wUpper, wCom] rfl wUpper wCom wHostBX
+    ⟨wUpper, some [98]⟩ ⟨wCom, some [98, 46, 120]⟩ (by decide) (by decide) (by decide) (by decide)
+  revert this; decide
 
-/-- the witness lies in the excluded region of `C12_accept_implies_core_partial` -/
-example : ipv4LooseOnlyB wIpv4Like = true := by decide
+/-- … so the bucket depends on the order of the configuration: `b` of `x.COM`, or `b.x` of `com` -/
+theorem C12_counterexample_order : ¬ C12_multidomain_order_independent_full := by
+  intro h
+  have := (h [wUpper, wCom] [wCom, wUpper] [wUpper, wCom] rfl (List.Perm.swap _ _ _) wHostBX).2
+  revert this; decide
 
-/-- `256.1.1.1` is accepted as well -/
-example : checkBucketName [50, 53, 54, 46, 49, 46, 49, 46, 49] = true ∧
-    ipv4FormattedB [50, 53, 54, 46, 49, 46, 49, 46, 49] = true := by decide
+/-- the witness lies in the excluded region of the partial statements -/
+example : ¬ ∀ d ∈ [wUpper, wCom], toAsciiLower d = d := by decide
+
+/-! ## repaired: F-path-1 (IPv4-like names), F-path-2 (host case), F-path-3 (signed port) -/
+
+/-- `192.168.5.04` and `256.1.1.1` are refused now -/
+example : checkBucketName [49, 57, 50, 46, 49, 54, 56, 46, 53, 46, 48, 52] = false := by decide
+example : checkBucketName [50, 53, 54, 46, 49, 46, 49, 46, 49] = false := by decide
 
 /-- `example.com` -/
 def wBase : Bytes := [101, 120, 97, 109, 112, 108, 101, 46, 99, 111, 109]
@@ -31,25 +50,14 @@ def wHost : Bytes := [109, 121, 98, 117, 99, 107, 101, 116, 46, 69, 88, 65, 77, 
 /-- `mybucket` -/
 def wBucket : Bytes := [109, 121, 98, 117, 99, 107, 101, 116]
 
-/-- F-path-2: the host `mybucket.EXAMPLE.COM` is not resolved against base domain `example.com` -/
-theorem C12_counterexample_host_case : ¬ C12_host_resolution_full := by
-  intro h
-  obtain ⟨b', hb', _⟩ := h wBase wHost wBucket (by decide)
-  have : parseHostHeader wBase wHost = none := by decide
-  rw [this] at hb'
-  cases hb'
-
-/-- what happens instead: the whole host, lower-cased, becomes the bucket, and a GET of `/key`
-    reaches the backend as bucket `mybucket.example.com`, key `key` -/
+/-- `mybucket.EXAMPLE.COM` is resolved against base domain `example.com`, and a GET of `/key`
+    reaches the backend as bucket `mybucket`, key `key` -/
+example : parseHostHeader wBase wHost = some ⟨wBase, some wBucket⟩ := by decide
 example : classify (.single wBase) (some wHost) [47, 107, 101, 121] =
-    .ok (.object (lowerAscii wHost) [107, 101, 121]) := by rfl
+    .ok (.object wBucket [107, 101, 121]) := by rfl
 
-/-- `example.com:+80` -/
-def wPortPlus : Bytes := [101, 120, 97, 109, 112, 108, 101, 46, 99, 111, 109, 58, 43, 56, 48]
-
-/-- F-path-3: a base domain with a signed port is taken for valid (`u16::from_str` accepts a
-    leading `+`), so `SingleDomain::new` / `MultiDomain::new` do not refuse it -/
-theorem C12_counterexample_port_plus :
-    isValidDomain wPortPlus = true ∧ (∃ v, multiNew [wPortPlus] = .ok v) := ⟨by decide, _, rfl⟩
+/-- `example.com:+80` is not a valid base domain any more -/
+example : isValidDomain [101, 120, 97, 109, 112, 108, 101, 46, 99, 111, 109, 58, 43, 56, 48] = false := by
+  decide
 
 end S3V.C12
